@@ -30,6 +30,9 @@ import time
 import traceback
 
 VERIF_DIR = os.path.dirname(os.path.dirname(os.path.abspath(__file__)))
+# where evidence / new violation replays are written (redirected when the
+# checks are pointed at a scratch copy for sensitivity runs)
+OUT_DIR = os.environ.get('VERIF_OUT', VERIF_DIR)
 REPO = os.path.abspath(os.environ.get('VERIF_REPO', '/repo'))
 NPROC = int(os.environ.get('VERIF_NPROC', '16'))
 
@@ -145,7 +148,8 @@ def safe_eval(eval_case, case):
 # known findings
 
 class Known:
-    def __init__(self, prop):
+    def __init__(self, prop, module=None):
+        self.case_sig = getattr(module, 'case_sig', None)
         path = os.path.join(VERIF_DIR, 'known_findings.json')
         self.entries = []
         if os.path.exists(path):
@@ -170,6 +174,11 @@ class Known:
         """Return the key of the known entry that lists this failure, or
         None if the failure is not listed."""
         sig = dict(case.get('sig', {})) if isinstance(case, dict) else {}
+        if self.case_sig is not None:
+            try:
+                sig.update(self.case_sig(case))
+            except Exception:
+                pass
         for k, v in (case.items() if isinstance(case, dict) else []):
             if isinstance(v, (str, int, bool)) or v is None:
                 sig.setdefault(k, v)
@@ -192,7 +201,7 @@ def _worker_init(modname, prop):
     global _MODULE, _KNOWN
     setup_repo_import()
     _MODULE = importlib.import_module(modname)
-    _KNOWN = Known(prop)
+    _KNOWN = Known(prop, _MODULE)
 
 
 def _worker_eval(cases):
@@ -354,7 +363,7 @@ class Context:
         self.prop = module.PROPERTY
         self.tier = tier
         self.seed = seed
-        self.known = Known(self.prop)
+        self.known = Known(self.prop, module)
         self.stats = Stats()
         self.violations = []        # (case, fails)
         self.harness_errors = []
@@ -492,7 +501,7 @@ class Context:
             print(ln)
 
     def write_violation(self, case, fails):
-        d = self.replay_dir()
+        d = os.path.join(OUT_DIR, 'replays', self.prop)
         os.makedirs(d, exist_ok=True)
         rel = fails[0]['relation'].replace('/', '_').replace(' ', '_')[:40]
         name = f'violation_{rel}_{case_hash(case)}.json'
@@ -501,7 +510,7 @@ class Context:
             json.dump({'property': self.prop, 'tier': self.tier,
                        'seed': self.seed, 'case': case,
                        'fails': jsonable(fails)}, f, indent=1, default=_js)
-        return os.path.relpath(path, VERIF_DIR)
+        return os.path.relpath(path, OUT_DIR)
 
     # -- evidence ---------------------------------------------------------
     def write_evidence(self, n_violation_buckets):
@@ -529,7 +538,7 @@ class Context:
             'wall_s': round(time.time() - self.t0, 2),
             'violations': n_violation_buckets,
         }
-        d = os.path.join(VERIF_DIR, 'evidence')
+        d = os.path.join(OUT_DIR, 'evidence')
         os.makedirs(d, exist_ok=True)
         with open(os.path.join(d, f'{self.prop}.json'), 'w') as f:
             json.dump(ev, f, indent=1, default=_js)
@@ -631,7 +640,7 @@ def main(argv=None):
           f'violations={len(buckets)} wall={ev["wall_s"]}s')
 
     if buckets:
-        for k in sorted(buckets):
+        for k in sorted(buckets)[:12]:
             _, case, fails = buckets[k]
             path = ctx.write_violation(case, fails)
             print(f"  {fails[0]['relation']}: {str(fails[0]['detail'])[:400]}")
